@@ -374,11 +374,24 @@ func registerGob(m map[string]intrinsicFn) {
 	m["(*encoding/gob.Encoder).Encode"] = func(in *Interp, fn *ssa.Function, args []Value) Value {
 		box := args[0].(PtrV).N.V.(gobBox)
 		iv := args[1].(IfaceV)
-		saveMemo := in.memo
-		in.memo = map[interface{}]interface{}{}
-		val := in.cloneValue(in.derefAll(iv.V))
-		in.memo = saveMemo
-		in.gobVals = append(in.gobVals, val)
+		if iv.T == nil {
+			return in.newError("gob: cannot encode nil value")
+		}
+		// gob flattens top-level pointers to plain values; pointers to types with their own GobEncode stay whole
+		v, t := iv.V, iv.T
+		for {
+			pt, isPtr := t.(*types.Pointer)
+			if !isPtr || in.gobCustomMethod(pt.Elem(), "GobEncode") {
+				break
+			}
+			p, _ := v.(PtrV)
+			if p.N == nil {
+				return in.newError("gob: encodeReflectValue: nil element")
+			}
+			v, t = in.load(p), pt.Elem()
+		}
+		tree := in.gobBuild(v, t, 0)
+		in.gobVals = append(in.gobVals, tree)
 		k := len(in.gobVals) - 1
 		bs := []*Term{in.tb.Const(8, 'G'), in.tb.Const(8, 'O'), in.tb.Const(8, 'B'), in.tb.Const(8, '#'),
 			in.tb.Const(8, uint64(k>>24)), in.tb.Const(8, uint64(k>>16)), in.tb.Const(8, uint64(k>>8)), in.tb.Const(8, uint64(k))}
@@ -428,19 +441,14 @@ func registerGob(m map[string]intrinsicFn) {
 			}
 			break
 		}
-		saveMemo := in.memo
-		in.memo = map[interface{}]interface{}{}
-		val := in.cloneValue(in.gobVals[k])
-		in.memo = saveMemo
+		tree, ok := in.gobVals[k].(*gobTree)
+		if !ok {
+			return in.newError("gob: bad stream")
+		}
 		in.abstractUsed = true
-		if st, dtp := in.jsonT[k], args[1].(IfaceV).T; st != nil && dtp != nil {
-			if pt, ok := dtp.Underlying().(*types.Pointer); ok && !types.Identical(st, pt.Elem()) {
-				conv, ok := in.jsonConv(val, st, pt.Elem(), in.load(tgt))
-				if !ok {
-					in.unsupportedf("json: conversion of boxed %v into %v", st, pt.Elem())
-				}
-				val = conv
-			}
+		val, derr := in.gobRestore(tree, tgt.N.T)
+		if e, _ := derr.(IfaceV); e.T != nil {
+			return derr
 		}
 		in.store(tgt, val)
 		return IfaceV{}
@@ -556,19 +564,14 @@ func registerJSONBox(m map[string]intrinsicFn) {
 		if !ok || tgt.N == nil {
 			return in.newError("json: Unmarshal(non-pointer)")
 		}
-		saveMemo := in.memo
-		in.memo = map[interface{}]interface{}{}
-		val := in.cloneValue(in.gobVals[k])
-		in.memo = saveMemo
+		tree, ok := in.gobVals[k].(*gobTree)
+		if !ok {
+			return in.newError("gob: bad stream")
+		}
 		in.abstractUsed = true
-		if st, dtp := in.jsonT[k], args[1].(IfaceV).T; st != nil && dtp != nil {
-			if pt, ok := dtp.Underlying().(*types.Pointer); ok && !types.Identical(st, pt.Elem()) {
-				conv, ok := in.jsonConv(val, st, pt.Elem(), in.load(tgt))
-				if !ok {
-					in.unsupportedf("json: conversion of boxed %v into %v", st, pt.Elem())
-				}
-				val = conv
-			}
+		val, derr := in.gobRestore(tree, tgt.N.T)
+		if e, _ := derr.(IfaceV); e.T != nil {
+			return derr
 		}
 		in.store(tgt, val)
 		return IfaceV{}
